@@ -67,7 +67,10 @@ PROPS = {
     ),
     'C05': dict(
         v=[('u_mb2_dstlen', ['*Tag::dst_len', '*_BASE_SIZE', 'DynSizedStructure::dst_len', 'MaybeDynSized::payload', 'MaybeDynSized::as_bytes']),
-           ('u_hdr_builder', ['InformationRequestHeaderTag::dst_len', 'INFOREQ_BASE_SIZE'])],
+           ('u_hdr_builder', ['InformationRequestHeaderTag::dst_len', 'INFOREQ_BASE_SIZE']),
+           ('u_mb2_fb', ['FramebufferTag::buffer_type', 'Reader::*']),
+           ('u_mb2_efi', ['EFIMemoryAreaIter::new', 'EFIMemoryAreaIter::next', 'EFIMemoryMapTag::memory_areas']),
+           ('u_mb2_elf', ['ElfSectionsTag::sections'])],
         k_quick=[], k_thorough=[],
     ),
     'C15': dict(
@@ -174,6 +177,14 @@ for _frag in ('registry_mb2_sized', 'registry_mb2_dst', 'registry_header', 'regi
     except ModuleNotFoundError:
         continue
     _merge(_m.HARNESSES)
+for _h, _extra in {'k_module_iter': ['C03']}.items():
+    if _h in HARNESSES:
+        HARNESSES[_h].setdefault('props', [])
+        for _p in _extra:
+            if _p not in HARNESSES[_h]['props']:
+                HARNESSES[_h]['props'].append(_p)
+            if _h not in PROPS[_p]['k_quick'] and _h not in PROPS[_p]['k_thorough']:
+                PROPS[_p]['k_quick'].append(_h)
 
 PRELUDE_TRUST = [
     'contracts/verus/prelude.rs: pointer-extent model (assume_specification of <[T]>::as_ptr, <*const T>::{add,sub,cast,align_offset}, NonNull::{new,as_ptr}, cast_const/cast_mut; external_body deref_raw, read_raw, addr_of_ref, slice::from_raw_parts, bytes_from_raw_parts, vslice, vslice_from, mem::size_of_val, controlled_panic)',
